@@ -17,7 +17,8 @@ def run(chk):
         "tensordot/vdot/trace/addition; presence of the rejection guards for fused legs in operations that do not support them; "
         "def-use of the boolean verdict `mask_needed` into the guard of the masking/embedding code and the replacement of the "
         "fusion histories; index-space typing of the arguments of the masking helpers; dominance of consume_transpose before "
-        "helpers that use leg positions as native axes. The value-level correctness of the mask construction is not decided.")
+        "helpers that use leg positions as native axes. The value-level correctness of the mask construction is not decided."
+        ' A fusion verdict obtained pair by pair in a loop must be accumulated into the flag tested after the loop; zip-paired per-leg sequences must share one leg order (engine seqorder).')
     chk.trusted_base = ["python ast parser", "CFG builder", "seed table of index spaces (sa/props/e3.py)"]
     e9.run_F(chk)
     e3.run_L1(chk, rule="F3", floor=100)
